@@ -1066,6 +1066,19 @@ impl Compiler {
         Ok(())
     }
 
+    /// A fresh compiler for the body of a function nested in the code this one compiles. It
+    /// inherits the source file (frames of stack traces name it) and the class context
+    /// (private members of the enclosing classes stay accessible).
+    pub(super) fn nested_function_compiler(&self) -> Compiler {
+        let mut func_compiler = Compiler::new();
+        func_compiler.source_file = self.source_file.clone();
+        if let Some(ref path) = self.source_file {
+            func_compiler.builder.set_source_file(path.clone());
+        }
+        func_compiler.class_context_stack = self.class_context_stack.clone();
+        func_compiler
+    }
+
     /// Compile function body to a nested BytecodeChunk
     pub fn compile_function_body(
         &mut self,
@@ -1079,16 +1092,7 @@ impl Compiler {
         use super::FunctionInfo;
 
         // Create a new compiler for the function body
-        let mut func_compiler = Compiler::new();
-
-        // Propagate source file for stack traces
-        func_compiler.source_file = self.source_file.clone();
-        if let Some(ref path) = self.source_file {
-            func_compiler.builder.set_source_file(path.clone());
-        }
-
-        // Copy class context so private members can be accessed inside nested functions
-        func_compiler.class_context_stack = self.class_context_stack.clone();
+        let mut func_compiler = self.nested_function_compiler();
 
         // Reserve registers for parameters - they are passed in registers 0, 1, 2...
         // We must reserve these before any other register allocation
@@ -2029,10 +2033,7 @@ impl Compiler {
     ) -> Result<super::BytecodeChunk, JsError> {
         use super::FunctionInfo;
 
-        let mut func_compiler = Compiler::new();
-
-        // Copy the class context so private field access works inside the constructor
-        func_compiler.class_context_stack = self.class_context_stack.clone();
+        let mut func_compiler = self.nested_function_compiler();
 
         // Reserve registers for parameters
         if !ctor.params.is_empty() {
@@ -2232,10 +2233,7 @@ impl Compiler {
     ) -> Result<super::BytecodeChunk, JsError> {
         use super::FunctionInfo;
 
-        let mut func_compiler = Compiler::new();
-
-        // Copy the class context so private field access works inside the constructor
-        func_compiler.class_context_stack = self.class_context_stack.clone();
+        let mut func_compiler = self.nested_function_compiler();
 
         // For derived classes, call super(...args) first to forward all arguments
         if has_super {
